@@ -356,12 +356,28 @@ def gen_case(rng, tier):
         else:
             ops.append(["first", c, rng.choice(range(0, ni + 1))])
 
+    # observers: dependents subscribed to implementedBy(type(ob)) that look at super(C, ob) DURING the
+    # change notification; held specifications: results of earlier queries looked at again later
+    observe = []
+    if rng.random() < 0.35:
+        for j in rng.sample(range(len(objects)), min(len(objects), rng.choice([1, 1, 2]))):
+            m = mro[objects[j][0]][:-1]
+            observe.append([j, rng.sample(m, min(len(m), rng.choice([1, 2, 3])))])
+
+    def held():
+        cands = [i for i, o in enumerate(ops) if o[0] in ("prov", "implby") and o[1][0] in ("super", "superc")
+                 and o[1][1] != 0]
+        for i in rng.sample(cands, min(len(cands), rng.choice([1, 2, 3]))):
+            ops.append(["held", i])
+
     sweep()
     adapts(rng.choice([1, 2, 3]))
     rounds = rng.choice([1, 2, 3]) if tier == "quick" else rng.choice([2, 3, 4, 5])
     for _ in range(rounds):
         for _ in range(rng.choice([1, 1, 2, 3])):
             change()
+        if rng.random() < 0.4:
+            held()                           # before anything asks again: nothing but the notification refreshed them
         if rng.random() < 0.3:
             regs.append(reg())
         if rng.random() < 0.5:
@@ -373,6 +389,8 @@ def gen_case(rng, tier):
         case["falsy"] = falsy
     if builtins:
         case["builtins"] = builtins
+    if observe:
+        case["observe"] = observe
     return case
 
 
@@ -461,6 +479,24 @@ def _op(op):
     raise ValueError(k)
 
 
+def _judged_firings(case, obs, k):
+    """What the observers saw during operation k, as (arg, answer, I.providedBy set) of ordinary
+    providedBy queries made right after it.  Kept only where the code as pinned is coherent in the middle
+    of a notification pass: an ADDITIVE declaration on a class X strictly after C in type(ob)'s MRO (the
+    specification of X is recomputed before anything hears about it and is itself a base of the proxy's
+    specification; what other classes still show is a subset of the final answer).  classImplementsOnly
+    notifies twice with an empty intermediate state and is not judged."""
+    op = case["ops"][k]
+    out = []
+    if op[0] not in ("impl", "first", "implspec"):
+        return out
+    for j, c, a, ip in (obs.get("fired") or [[]] * len(case["ops"]))[k]:
+        m = obs["mros"][case["objects"][j][0]]
+        if a[:1] == [1] and c in m and op[1] in m[m.index(c) + 1:]:
+            out.append((["super", c, j], a, ip))
+    return out
+
+
 def _env(case):
     cg = ["(0, [])"] + ["(%d, %s)" % (k + 1, _lnat(bs)) for k, bs in enumerate(case["classes"])]
     ig = ["(%d, %s)" % (k + 1, _lnat(bs)) for k, bs in enumerate(case["ifaces"])]
@@ -478,10 +514,26 @@ def coq_case(case, obs, mode):
         raise C.HarnessError("driver error: " + obs["error"])
     if case.get("kind") == "reg":
         return "(CReg %s)" % _REGSYS.sub(lambda m: "RegSys." + m.group(1), RC.coq_hist_case(case, obs))
-    ips = "[" + "; ".join("None" if ip is None else "(Some %s)" % _lnat(ip) for ip in obs["ip"]) + "]"
+    tops, answers, ipl, pos = [], [], [], {}
+    for k, op in enumerate(case["ops"]):
+        pos[k] = len(tops)
+        tops.append("(THeld %d)" % pos[op[1]] if op[0] == "held" else "(TOp %s)" % _op(op))
+        answers.append(obs["ans"][k])
+        ipl.append(obs["ip"][k])
+        for a, ans, ip in _judged_firings(case, obs, k):
+            tops.append("(TOp (OProvidedBy %s))" % _arg(a))
+            answers.append(ans)
+            ipl.append(ip)
+    # identities of synthesized specifications: first appearance among the answers that are judged
+    # (the driver also numbers what observers saw during operations that are not judged)
+    remap = {}
+    for n, a in enumerate(answers):
+        if a[:2] == [1, 0]:
+            answers[n] = [1, 0, remap.setdefault(a[2], len(remap))] + list(a[3:])
+    ips = "[" + "; ".join("None" if ip is None else "(Some %s)" % _lnat(ip) for ip in ipl) + "]"
     return "(CDecl (%s, %s,\n  [%s],\n  [%s],\n  [%s],\n  %s))" % (
         C.cbool(mode == "c"), _env(case), "; ".join(_lnat(m) for m in obs["mros"]),
-        ";\n   ".join(_op(o) for o in case["ops"]), "; ".join(_lnat(a) for a in obs["ans"]), ips)
+        ";\n   ".join(tops), "; ".join(_lnat(a) for a in answers), ips)
 
 
 # --------------------------------------------------------------------------- coverage bookkeeping
@@ -613,9 +665,18 @@ def replay_text(case, obs, mode):
             return "super(K[%d])" % a[1]
         return "super(K[%d], O[%d])" % (a[1], a[2])
 
-    for op, a, ip in zip(case["ops"], obs.get("ans", []), obs.get("ip", [])):
+    for j, cs in case.get("observe", []):
+        L.append("# observer: an object with changed(spec) subscribed via implementedBy(type(O[%d])).subscribe(...) "
+                 "that calls providedBy(super(K[c], O[%d])) for c in %s inside changed(); what it saw is listed "
+                 "after each declaration as 'during:'" % (j, j, cs))
+    fired = obs.get("fired") or [[] for _ in case["ops"]]
+    for n, (op, a, ip) in enumerate(zip(case["ops"], obs.get("ans", []), obs.get("ip", []))):
         k = op[0]
-        if k == "impl":
+        if n and fired[n - 1]:
+            L.append("#   during: %s" % json.dumps(fired[n - 1]))
+        if k == "held":
+            L.append("print(show(<the specification returned by step %d above, held since>))   # observed %s" % (op[1], a))
+        elif k == "impl":
             L.append("classImplements(K[%d], %s)" % (op[1], ", ".join("I[%d]" % i for i in op[2])))
         elif k == "only":
             L.append("classImplementsOnly(K[%d], %s)" % (op[1], ", ".join("I[%d]" % i for i in op[2])))
